@@ -28,7 +28,7 @@ var vfSources = []string{
 	// 2: switch with hanging comments, labels, if/else
 	"package p\n\nfunc f(x int) {\n\tswitch x {\n\tcase 1:\n\t\tg()\n\t\t// hanging\n\tcase 2:\n\t\t// only comment\n\tdefault:\n\t}\nL:\n\tif x > 0 {\n\t\tgoto L\n\t} else {\n\t\t// else comment\n\t}\n}\n",
 	// 3: struct, interface, generics, multi-line call
-	"package p\n\ntype T[K comparable, V any] struct {\n\ta K // key\n\n\t// value\n\tb V\n}\n\ntype I interface {\n\tM() // m\n}\n\nfunc g() {\n\tf(\n\t\t1, // one\n\t\t2,\n\t)\n}\n",
+	"package p\n\ntype T[K comparable, V any] struct {\n\ta K // key\n\n\t// value\n\tb V\n}\n\ntype I interface {\n\tM() // m\n}\n\nfunc g() {\n\tf(\n\t\t1, // one\n\t\t2,\n\t)\n\t_ = T[\n\t\tint,\n\t\tstring,\n\t]{}\n}\n",
 	// 4: import block with comments and blank line, const block, select
 	"package p\n\nimport (\n\t\"a\" // std\n\n\t// third party\n\tb \"x.y/b\"\n)\n\nconst (\n\tA = iota // first\n\tB\n)\n\nfunc h(c chan int) {\n\tselect {\n\tcase <-c:\n\t\t// recv\n\tdefault:\n\t}\n}\n",
 	// 5: own-line comments in front of closing parentheses (specs, parameters, arguments), non-ASCII literal
@@ -222,8 +222,8 @@ func vfCompareRestored(fset *token.FileSet, f *ast.File, df *dst.File) {
 		return
 	}
 	for i := 1; i < len(pi); i++ {
-		pp, pq := fset.Position(pi[i-1].end), fset.Position(pi[i].start)
-		rp, rq := rfset.Position(ri[i-1].end), rfset.Position(ri[i].start)
+		pp, pq := fset.PositionFor(pi[i-1].end, false), fset.PositionFor(pi[i].start, false)
+		rp, rq := rfset.PositionFor(ri[i-1].end, false), rfset.PositionFor(ri[i].start, false)
 		vfAssert(vfCap2(pq.Line-pp.Line) == vfCap2(rq.Line-rp.Line), "same-line-structure")
 		vfAssert(ri[i-1].end < ri[i].start, "restored-items-do-not-overlap")
 	}
@@ -236,6 +236,14 @@ func VerifC01Pipeline3() { vfPipeline(vfSources[3]) }
 func VerifC01Pipeline4() { vfPipeline(vfSources[4]) }
 func VerifC01Pipeline5() { vfPipeline(vfSources[5]) }
 func VerifC01PipelineDir() { vfPipelineDir() }
+
+// VerifC15LineDirective: a //line directive that moves the reported line numbers far beyond the physical
+// line count (generated code): fragment() works with the adjusted positions the FileSet reports; the
+// pipeline must neither panic nor lose the line structure.
+func VerifC15LineDirective() {
+	vfPipeline("package p\n\n//line gram.y:100\nvar x int\n\n// doc\nvar y = `a\nb`\n\nvar z int\n")
+}
+func VerifC01LineDirective() { VerifC15LineDirective() }
 
 var _ = dst.NewIdent
 
@@ -332,3 +340,7 @@ func vfEntryDir() {
 
 // VerifC11ParseDir: the package node and its files are in the decorator's node maps after ParseDir.
 func VerifC11ParseDir() { vfEntryDir() }
+
+// VerifC01Hanging: the hanging-comment layouts of clause lists (see VerifC02Hanging) are part of the
+// decorate/restore identity too: which clause a comment is stored in decides where it is printed.
+func VerifC01Hanging() { VerifC02Hanging() }
